@@ -2,6 +2,7 @@ use crate::catch;
 use crate::common::ordered_work_steal::Ordered;
 use std::ffi::c_longlong;
 use std::hash::{DefaultHasher, Hash, Hasher};
+use std::sync::Arc;
 
 /// 做C兼容时会用到
 pub type UserTaskFunc = extern "C" fn(usize) -> usize;
@@ -17,6 +18,10 @@ pub struct Task<'t> {
     func: Box<dyn FnOnce(Option<usize>) -> Option<usize> + 't>,
     param: Option<usize>,
     priority: Option<c_longlong>,
+    /// Where the pool that accepted this task keeps its result and its waiter. Tasks move
+    /// between pools (shared queue, stealing): whichever pool runs the task settles it there.
+    #[educe(Debug(ignore))]
+    board: Option<Arc<super::TaskBoard>>,
 }
 
 impl<'t> Task<'t> {
@@ -36,7 +41,20 @@ impl<'t> Task<'t> {
             func: Box::new(func),
             param,
             priority,
+            board: None,
         }
+    }
+
+    /// The board of the pool that accepted this task (set once, on acceptance).
+    pub(crate) fn accepted_by(&mut self, board: &Arc<super::TaskBoard>) {
+        if self.board.is_none() {
+            self.board = Some(board.clone());
+        }
+    }
+
+    /// See [`Task::accepted_by`].
+    pub(crate) fn board(&self) -> Option<Arc<super::TaskBoard>> {
+        self.board.clone()
     }
 
     /// get the task name.
